@@ -167,14 +167,17 @@ pub open spec fn status_names(k: Seq<char>) -> bool { k == "grpc-status"@ || k =
 STATUS_REL = r'''
 // WRITING: what add_header must leave in the map (from the property: code as decimal, message percent-encoded, details
 // base64 without padding, user metadata minus reserved names, everything else untouched)
-pub open spec fn written(s: Status, pre: HMap, post: HMap) -> bool {
+pub open spec fn written_status(s: Status, post: HMap) -> bool {
     &&& post.contains_key("grpc-status"@) && post["grpc-status"@] == seq![dec_text(code_num(s.code))]
     &&& s.message@.len() > 0 ==> post.contains_key("grpc-message"@) && post["grpc-message"@] == seq![pct_enc(utf8(s.message@))]
     &&& s.details@.len() > 0 ==> post.contains_key("grpc-status-details-bin"@) && post["grpc-status-details-bin"@] == seq![b64_enc(false, s.details@)]
-    &&& forall|k: Seq<char>| !(k == "grpc-status"@) && !(k == "grpc-message"@ && s.message@.len() > 0) && !(k == "grpc-status-details-bin"@ && s.details@.len() > 0) ==>
+}
+pub open spec fn written_rest(s: Status, pre: HMap, post: HMap) -> bool {
+    forall|k: Seq<char>| !(k == "grpc-status"@) && !(k == "grpc-message"@ && s.message@.len() > 0) && !(k == "grpc-status-details-bin"@ && s.details@.len() > 0) ==>
             (#[trigger] post.contains_key(k) <==> ((s.metadata.headers@.contains_key(k) && !is_reserved(k)) || pre.contains_key(k)))
             && (post.contains_key(k) ==> post[k] == (if s.metadata.headers@.contains_key(k) && !is_reserved(k) { s.metadata.headers@[k] } else { pre[k] }))
 }
+pub open spec fn written(s: Status, pre: HMap, post: HMap) -> bool { written_status(s, post) && written_rest(s, pre, post) }
 // READING: total; what from_header_map must answer for ANY header map
 pub open spec fn msg_ok(h: HMap) -> bool { !h.contains_key("grpc-message"@) || utf8_valid(pct_dec(h["grpc-message"@][0])) }
 pub open spec fn det_ok(h: HMap) -> bool { !h.contains_key("grpc-status-details-bin"@) || b64_dec(h["grpc-status-details-bin"@][0]) is Some }
@@ -299,7 +302,9 @@ CONTRACTS = {
     'from_header_map': [('R1_total_and_exact', 'read(header_map@, r)', ['C04', 'C02'])],
     'add_header': [
         ('A1_never_fails_values_always_legal', 'r is Ok', ['C04', 'C03', 'C12']),
-        ('A2_written', 'written(*self, old(header_map)@, final(header_map)@)', ['C04', 'C03', 'C08', 'C02', 'C12']),
+        # two clauses, so that a break of the status fields is not reported for C08 (metadata), nor the other way round
+        ('A2_written', 'written_status(*self, final(header_map)@)', ['C04', 'C03', 'C02', 'C12']),
+        ('A3_user_metadata_written_and_every_other_header_untouched', 'written_rest(*self, old(header_map)@, final(header_map)@)', ['C04', 'C03', 'C08', 'C02', 'C12']),
     ],
     'infer_grpc_status': [
         ('I1_status_from_trailers_wins',
